@@ -23,6 +23,7 @@ SignerOf(m) ==
     [] m.t = "Send" -> m.from
     [] m.t = "Delegate" -> m.del
     [] m.t = "Exec" -> m.grantee
+    [] m.t = "GExec" -> m.member
     [] m.t \in {"Grant", "Revoke", "FGrant", "FRevoke"} -> m.granter
     [] m.t = "UpdParams" -> m.authority
     [] m.t = "GovProp" -> m.proposer
@@ -58,6 +59,14 @@ FGrantKey(granter, grantee) == granter \o "/" \o grantee
 MayExec(st, grantee, m) == SignerOf(m) = grantee \/ Has(st.grants, GrantKey(SignerOf(m), grantee, m.t))
 
 ------------------------------------------------------------------------------
+(* x/group: ONE group (members GroupMembers, each of weight 1) with ONE       *)
+(* policy account "grp" (threshold 1, no minimum execution period), created  *)
+(* before the first transaction.  "grp" is an account without a key (its     *)
+(* address is derived, 32 bytes): it acts only through GExec = a group       *)
+(* proposal submitted by a member with immediate execution (Exec = TRY).     *)
+GroupMembers == {"A1", "A2"}
+
+------------------------------------------------------------------------------
 (* stateless checks of one message, nested messages included (stage S1) *)
 RECURSIVE BasicOk(_, _)
 BasicOk(st, m) ==
@@ -76,6 +85,7 @@ BasicOk(st, m) ==
     [] m.t = "Send" -> m.amt > 0
     [] m.t = "Delegate" -> m.amt > 0
     [] m.t = "Exec" -> Len(m.msgs) > 0 /\ \A i \in DOMAIN m.msgs : BasicOk(st, m.msgs[i])
+    [] m.t = "GExec" -> Len(m.msgs) > 0 /\ \A i \in DOMAIN m.msgs : BasicOk(st, m.msgs[i])
     [] m.t = "Grant" -> m.granter # m.grantee /\ m.mt \in GrantableTypes
     [] m.t = "Revoke" -> m.granter # m.grantee /\ m.mt # ""
     [] m.t \in {"FGrant", "FRevoke"} -> m.granter # m.grantee
@@ -83,6 +93,18 @@ BasicOk(st, m) ==
     [] m.t = "GovProp" -> \A i \in DOMAIN m.msgs : BasicOk(st, m.msgs[i])
     [] m.t = "Vote" -> TRUE
     [] OTHER -> FALSE
+
+------------------------------------------------------------------------------
+\* entities that messages of a rolled-back transaction had created before a later message failed: ids and stream
+\* pairs that exist only in the discarded branch.  Observation variable st.aux.ghost (never compared with the code):
+\* it lets the bounded models aim schedules at operations that meet such a key again (Goals.tla).
+Ghosts(s0, s1) ==
+     UNION { { <<k, s1[k].ch[i].id, s1[k].ch[i].owner>> : i \in (DOMAIN s1[k].ch) \ (DOMAIN s0[k].ch) } : k \in {"wrk", "bcn"} }
+  \cup UNION { { <<k \o "-limit", s1[k].ch[i].id, "-">> : i \in { j \in (DOMAIN s1[k].ch) \cap (DOMAIN s0[k].ch) : s1[k].ch[j].limit # s0[k].ch[j].limit } } : k \in {"wrk", "bcn"} }
+  \cup { <<"po", s1.ent.po[i].id, s1.ent.po[i].pur>> : i \in (DOMAIN s1.ent.po) \ (DOMAIN s0.ent.po) }
+  \cup { <<"str", key, "-">> : key \in (DOMAIN s1.str.s) \ (DOMAIN s0.str.s) }
+  \* streams that the discarded branch had changed (top-up, flow rate, claim) or removed (cancel)
+  \cup { <<"str-mod", key, "-">> : key \in { x \in DOMAIN s0.str.s : x \notin DOMAIN s1.str.s \/ s1.str.s[x] # s0.str.s[x] } }
 
 ------------------------------------------------------------------------------
 (* message handlers (stage S3).  signer = the account the router sees as     *)
@@ -116,6 +138,14 @@ RunMsg(st, m) ==
          \* its signer to the grantee for exactly that message type; the nested message then runs AS its signer
          IF \E i \in DOMAIN m.msgs : ~MayExec(st, m.grantee, m.msgs[i]) THEN Fail(st)
          ELSE LET r == RunMsgs(st, m.msgs, <<>>) IN IF r.ok THEN OkOut(r.st, [nested |-> Len(m.msgs)]) ELSE Fail(st)
+    [] m.t = "GExec" ->
+         \* only members may submit; every message must be one the policy account signs; the proposer's yes vote
+         \* reaches the threshold and the messages run AS the policy account in a branch of their own: when one of
+         \* them fails the branch is discarded and the transaction still succeeds (the proposal is kept as failed)
+         IF m.member \notin GroupMembers \/ \E i \in DOMAIN m.msgs : SignerOf(m.msgs[i]) # "grp" THEN Fail(st)
+         ELSE LET r == RunMsgs(st, m.msgs, <<>>) IN
+              IF r.ok THEN OkOut(r.st, [executed |-> TRUE])
+              ELSE OkOut([st EXCEPT !.aux.ghost = @ \cup Ghosts(st, r.st)], [executed |-> FALSE])
     [] m.t = "Grant" -> Ok([st EXCEPT !.grants = Upd(@, GrantKey(m.granter, m.grantee, m.mt), 1)])
     [] m.t = "Revoke" ->
          IF ~Has(st.grants, GrantKey(m.granter, m.grantee, m.mt)) THEN Fail(st)
@@ -153,7 +183,7 @@ TopOps(msgs, k) == SelectSeq(msgs, LAMBDA m : IsRegMsg(k, m))
 RECURSIVE Flatten(_)
 Flatten(msgs) == IF msgs = <<>> THEN <<>>
                  ELSE LET m == Head(msgs) IN
-                      (IF m.t \in {"Exec", "GovProp"} THEN Flatten(m.msgs) ELSE <<m>>) \o Flatten(Tail(msgs))
+                      (IF m.t \in {"Exec", "GovProp", "GExec"} THEN Flatten(m.msgs) ELSE <<m>>) \o Flatten(Tail(msgs))
 AllOps(msgs, k) == SelectSeq(Flatten(msgs), LAMBDA m : IsRegMsg(k, m))
 SumFees(p, ops) == SeqSum([i \in DOMAIN ops |-> MsgFee(p, ops[i])])
 
@@ -208,15 +238,6 @@ TxOf(ev) ==
       payer |-> IF Get(ev, "payer", "") # "" THEN ev.payer ELSE req[1],
       granter |-> Get(ev, "granter", ""),
       badSig |-> Get(ev, "badSig", FALSE), badSeq |-> Get(ev, "badSeq", FALSE)]
-
-\* entities that messages of a rolled-back transaction had created before a later message failed: ids and stream
-\* pairs that exist only in the discarded branch.  Observation variable st.aux.ghost (never compared with the code):
-\* it lets the bounded models aim schedules at operations that meet such a key again (Goals.tla).
-Ghosts(s0, s1) ==
-     UNION { { <<k, s1[k].ch[i].id, s1[k].ch[i].owner>> : i \in (DOMAIN s1[k].ch) \ (DOMAIN s0[k].ch) } : k \in {"wrk", "bcn"} }
-  \cup UNION { { <<k \o "-limit", s1[k].ch[i].id, "-">> : i \in { j \in (DOMAIN s1[k].ch) \cap (DOMAIN s0[k].ch) : s1[k].ch[j].limit # s0[k].ch[j].limit } } : k \in {"wrk", "bcn"} }
-  \cup { <<"po", s1.ent.po[i].id, s1.ent.po[i].pur>> : i \in (DOMAIN s1.ent.po) \ (DOMAIN s0.ent.po) }
-  \cup { <<"str", key, "-">> : key \in (DOMAIN s1.str.s) \ (DOMAIN s0.str.s) }
 
 DeliverTx(st, ev) ==
   LET tx == TxOf(ev) IN
